@@ -152,6 +152,90 @@ func checkC14(c *Ctx) {
 		}
 	}
 
+	// ---- C14.8 the same on the shared / client side: where a filter is handed in as a function value (SubnetFilter), the
+	// candidates given to the selection routine are that filter's result; the unfiltered list is used only when no filter
+	// was given. (A filter that leaves nothing is an error of the selection - ErrMissingAddrs -, never a reason to fall
+	// back to the other family's subnets.)
+	r.Rule("C14.8", "where a SubnetFilter is applied, the selection routine receives its result - the unfiltered list only when no filter was given", 1)
+	{
+		n := 0
+		for _, f := range c.funcsOfPkgs(ph) {
+			if f.Blocks == nil || strings.Contains(r.posStr(f.Pos()), "_test") {
+				continue
+			}
+			var filt *ssa.Parameter
+			for _, prm := range f.Params {
+				if strings.HasSuffix(typeShort(prm.Type()), "phantoms.SubnetFilter") {
+					filt = prm
+				}
+			}
+			if filt == nil {
+				continue
+			}
+			var tcall *ssa.Call
+			eachInstr(f, func(in ssa.Instruction) {
+				if call, ok := in.(*ssa.Call); ok && !call.Call.IsInvoke() && stripConv(call.Call.Value) == ssa.Value(filt) {
+					tcall = call
+				}
+			})
+			if tcall == nil {
+				continue // passes the filter on
+			}
+			eachInstr(f, func(in ssa.Instruction) {
+				call, ok := in.(*ssa.Call)
+				if !ok || call == tcall || call.Call.StaticCallee() == nil || !strings.HasPrefix(call.Call.StaticCallee().Name(), "select") {
+					return
+				}
+				// the candidates argument: the []*phantomNet one
+				for _, a := range call.Call.Args {
+					if !strings.HasSuffix(typeShort(a.Type()), "phantoms.phantomNet") {
+						continue
+					}
+					n++
+					okk, why := true, ""
+					var walk func(v ssa.Value, d int)
+					walk = func(v ssa.Value, d int) {
+						if d > 6 || !okk {
+							okk = okk && d <= 6
+							return
+						}
+						switch x := v.(type) {
+						case *ssa.Phi:
+							for i, e := range x.Edges {
+								if ex, isEx := e.(*ssa.Extract); isEx && ex.Tuple == ssa.Value(tcall) && ex.Index == 0 {
+									continue
+								}
+								if _, isPhi := e.(*ssa.Phi); isPhi {
+									walk(e, d+1)
+									continue
+								}
+								// any other value: only on the edge where no filter was given
+								if !phiEdgeGuarded(f, x, i, Atom{"(" + orderEq("nil", pname(filt)) + ")", true}) {
+									okk, why = false, firstN(pathOf(e), 50)
+								}
+							}
+						case *ssa.Extract:
+							if !(x.Tuple == ssa.Value(tcall) && x.Index == 0) {
+								okk, why = false, firstN(pathOf(x), 50)
+							}
+						default:
+							// the unfiltered list outright: the call itself must sit under filter == nil
+							if !guarded(f, call, Atom{"(" + orderEq("nil", pname(filt)) + ")", true}) {
+								okk, why = false, firstN(pathOf(v), 50)
+							}
+						}
+					}
+					walk(a, 0)
+					r.Check(okk, "C14.8", fnName(f)+": "+call.Call.StaticCallee().Name()+" receives the filter's result", call.Pos(), fnName(f), "every incoming value is "+pname(filt)+"(…)#0, or arrives only when "+pname(filt)+" == nil",
+						"the selection routine can be handed "+why+" although a family filter was given (the filter's result is dropped on some path): the selected phantom can be of the other address family instead of the selection failing")
+				}
+			})
+		}
+		if n == 0 {
+			r.Unk("C14.8", "functions that apply a SubnetFilter and select", token.NoPos, "", "none found")
+		}
+	}
+
 	// ---- C14.7 a subnet carries the port flag of the group it was configured in: the flag stored with a parsed subnet is
 	// the RandomizeDstPort of the message its CIDR strings come from, and that message is a group of the configuration
 	// itself (not a message assembled from several groups, whose single flag is whichever group was merged last)
